@@ -24,6 +24,7 @@
   sequence (hook yr_verif_on_candidate) EQUALS `scan` of the built tables and `expectedScan`, order included.
 -/
 import YaraModel.Lemmas.AcBuildFinal
+import YaraModel.Lemmas.AcBuildSome
 import YaraModel.Lemmas.AcBuildCands
 namespace YaraModel.AC.Build
 open YaraModel.Text YaraModel.AC
@@ -183,6 +184,23 @@ theorem build_candsOK (atoms : List (Nat × Atom)) (hbt : ∀ a ∈ atoms, a.2.b
     (hat : ∀ a, (sidx, a) ∈ atoms ↔ a ∈ atomsOf w m s) (buf : Bytes) :
     CandsOK w m s buf ((scan T buf).filterMap fun x => if x.1 = sidx then some (x.2.1, x.2.2) else none) :=
   candsOK_of_exact T atoms buf (build_sound atoms hbt hlen T hb buf) sidx w m s hat
+
+/-- **The size assertion cannot fail below 32 638 states**: `build` returns tables whenever the atoms have at most 32 637
+    bytes in total (each byte adds at most one state to the root; every popped state makes the tables grow by at most 257
+    entries, so every slot stays below `YR_AC_MAX_TRANSITION_TABLE_SIZE - 257`). Discharges the hypothesis
+    `build atoms = some T` of the theorems above (and of Thm/C01EndToEnd, Thm/C05EndToEnd) for rule sets of that size. -/
+theorem build_some (atoms : List (Nat × Atom)) (h : (atoms.map fun a => a.2.bytes.length).sum ≤ 32637) :
+    ∃ T, build atoms = some T := by
+  have h1 := addAtoms_size atoms
+  have h2 : (addAtoms atoms).states.size ≤ 32638 := by omega
+  have h3 : 257 * (addAtoms atoms).states.size ≤ 257 * 32638 := Nat.mul_le_mul_left _ h2
+  have hok := compile_ok atoms (by
+    have e : 257 * 32638 = 8387966 := by decide
+    rw [e] at h3
+    exact Nat.lt_of_le_of_lt (Nat.add_le_add_left h3 512) (by decide))
+  unfold build
+  simp only [hok, if_true]
+  exact ⟨_, rfl⟩
 
 /-- non-vacuity: a small rule set with a shared prefix, an atom that is a suffix of another, a duplicate and the bytes
     0x00 / 0xFF builds, and its scan reports the expected candidates in arrival order -/
